@@ -112,6 +112,22 @@ func (r *Report) Violate(key, what string, input interface{}) {
 func (r *Report) Write(dir string) error {
 	r.DistinctNontrivial = len(r.distinct)
 	r.Coverage["strata"] = r.strata
+	// NaN / Inf are not JSON: anything that does not marshal is stored as its printed form
+	safe := func(x interface{}) interface{} {
+		if _, err := json.Marshal(x); err != nil {
+			return fmt.Sprintf("%+v", x)
+		}
+		return x
+	}
+	for i := range r.Violations {
+		r.Violations[i].Input = safe(r.Violations[i].Input)
+	}
+	for i := range r.Samples {
+		r.Samples[i] = safe(r.Samples[i])
+	}
+	for k, v := range r.Coverage {
+		r.Coverage[k] = safe(v)
+	}
 	b, err := json.MarshalIndent(r, "", " ")
 	if err != nil {
 		return err
